@@ -28,6 +28,13 @@ void verif_yield(void);
 // Virtual wall clock (nanoseconds since epoch) used to stub system_clock/steady_clock.
 std::int64_t verif_clock_ns(void);
 void verif_clock_set_ns(std::int64_t ns);
+// Every read of system_clock/steady_clock returns the virtual clock and then advances it by a fresh symbolic
+// input "clk#k" in [step_lo, step_hi] ns (a fixed step when lo == hi; default 1000).  A timed condition wait
+// that runs into its deadline moves the clock to max(clock, deadline) + "late#k" in [0, late_max] ns.
+void verif_clock_config(std::int64_t step_lo, std::int64_t step_hi, std::int64_t late_max);
+// Optional, defined by a harness: called while the (single) thread waits on a condition variable with the
+// mutex released - the environment's chance to push a value or request a stop "while the loop is waiting".
+void verif_wait_hook(void);
 }
 
 static inline std::int64_t verif_range(const char *name, std::int64_t lo, std::int64_t hi) {
